@@ -29,7 +29,9 @@ pub fn range(days: i64) -> DateRange {
     let s = start_date();
     DateRange::from(s..=(s + chrono::Duration::days(days - 1)))
 }
-pub const VERIF: &str = "/verif";
+pub fn verif_dir() -> String {
+    std::env::var("IPT_VERIF_DIR").unwrap_or_else(|_| "/verif".to_string())
+}
 
 #[cfg(feature = "std")]
 mod sweep {
